@@ -3,11 +3,12 @@
 //! case (one per line):
 //!   seq <nm> <nv> <timeout> <op> <op> ...
 //! ops:
-//!   A,<type>,<kind>,<klen>,<kseed>,<klen2>,<kseed2>,<llen>,<lseed>,<nul>
+//!   A,<type>,<kind>,<klen>,<kseed>,<klen2>,<kseed2>,<llen>,<lseed>,<nul>[,<w>]
 //!        allocate_opt; kind n = no key, o = key_opt(klen,kseed), f = key_func(klen,kseed),
-//!        b = both (key_opt(klen,kseed), key_func(klen2,kseed2)); label of llen bytes, byte <nul> is 0 (-1: none)
+//!        b = both (key_opt(klen,kseed), key_func(klen2,kseed2)); label of llen bytes, byte <nul> is 0 (-1: none);
+//!        w = 2, 3, 4: the label is llen BYTES of UTF-8 made of w-byte characters (mk_label_u)
 //!   F,<id>          free
-//!   S,<id>,<v>      set_counter_value (v: u64)
+//!   S,<id>,<v>[,p]  set_counter_value (v: u64); with p the value is written through an UnsafeBufferPosition
 //!   C,<t>           the injected clock now reads t
 //!   D               full dump through the reader
 //!   flood <nm> <nv> <count>   fill the manager, <count> further allocations, one more (see case_flood)
@@ -15,6 +16,7 @@
 //! (see coq/Model/Counters.v `obs`); the history stops at the first operation that panics.
 use aeron_rs::concurrent::atomic_buffer::{AlignedBuffer, AtomicBuffer};
 use aeron_rs::concurrent::counters::{CountersManager, CountersReader, MAX_KEY_LENGTH};
+use aeron_rs::concurrent::position::{ReadablePosition, UnsafeBufferPosition};
 use aeron_rs::heartbeat_timestamp;
 use aeron_rs::utils::errors::{AeronError, IllegalArgumentError};
 use std::sync::atomic::{AtomicU64, Ordering};
@@ -84,6 +86,26 @@ fn mk_label(len: i64, seed: i64, nul: i64) -> String {
         .map(|i| if i == nul { 0u8 } else { (33 + (seed * 31 + i * 7).rem_euclid(90)) as u8 })
         .collect();
     String::from_utf8(b).expect("ascii")
+}
+
+/// `len` bytes of UTF-8: len / w characters of w bytes each, then len % w ASCII characters (Model/Counters.v mk_label_u)
+fn mk_label_u(len: i64, seed: i64, w: i64) -> String {
+    if w <= 1 {
+        return mk_label(len, seed, -1);
+    }
+    let mut b: Vec<u8> = Vec::new();
+    for c in 0..(len / w) {
+        let last = 128 + (seed + c).rem_euclid(64) as u8;
+        match w {
+            2 => b.extend_from_slice(&[195, last]),
+            3 => b.extend_from_slice(&[226, 130, last]),
+            _ => b.extend_from_slice(&[240, 159, 152, last]),
+        }
+    }
+    for i in 0..(len % w) {
+        b.push((33 + (seed * 31 + i * 7).rem_euclid(90)) as u8);
+    }
+    String::from_utf8(b).expect("utf8")
 }
 
 fn mk_key(len: i64, seed: i64) -> Vec<u8> {
@@ -216,7 +238,11 @@ fn case_seq(parts: &[&str]) -> String {
                 let type_id = num(f[1]) as i32;
                 let kind = f[2];
                 let (klen, kseed, klen2, kseed2) = (num(f[3]) as i64, num(f[4]) as i64, num(f[5]) as i64, num(f[6]) as i64);
-                let label = mk_label(num(f[7]) as i64, num(f[8]) as i64, num(f[9]) as i64);
+                let label = if f.len() > 10 && num(f[10]) > 1 {
+                    mk_label_u(num(f[7]) as i64, num(f[8]) as i64, num(f[10]) as i64)
+                } else {
+                    mk_label(num(f[7]) as i64, num(f[8]) as i64, num(f[9]) as i64)
+                };
                 let key = mk_key(klen, kseed);
                 let fkey = if kind == "b" { mk_key(klen2, kseed2) } else { key.clone() };
                 let key_fn = move |b: &mut AtomicBuffer| {
@@ -251,7 +277,16 @@ fn case_seq(parts: &[&str]) -> String {
             "S" => {
                 let id = num(f[1]) as i64;
                 let v = num(f[2]) as u64;
-                let r = if id < 0 || id >= nv { Err(()) } else { catch(|| mgr.set_counter_value(id as i32, v)) };
+                // "p": the write goes through an UnsafeBufferPosition on the values buffer (how a publication limit or
+                // a late writer that still holds the id reaches the slot) instead of through the manager
+                let via_position = f.len() > 3 && f[3] == "p";
+                let r = if id < 0 || id >= nv {
+                    Err(())
+                } else if via_position {
+                    catch(|| UnsafeBufferPosition::new(v_buf, id as i32).set_ordered(v as i64))
+                } else {
+                    catch(|| mgr.set_counter_value(id as i32, v))
+                };
                 (match r { Ok(()) => "COk (0)".to_string(), Err(()) => "CPanic".to_string() }, "COk (0)".to_string())
             }
             "C" => {
